@@ -37,6 +37,30 @@ class Watchdog(Exception):
     pass
 
 
+RESOLVE_VALUES = [None, 0, "v", (), 1.5]
+GHOST = 99                # index of an entity that is not registered with the Simulation
+
+
+def cancel_points(f):
+    """the points at which the handle of fault `f` is cancelled: "pre" (before the Simulation is
+    built), 0 (after it is built, before the run), c > 0 (by an event at tick c)"""
+    c = f.get("cancel", -1)
+    if isinstance(c, list):
+        return [x for x in c if x == "pre" or x >= 0]
+    return [] if (c != "pre" and c < 0) else [c]
+
+
+def manual_parts(case):
+    """manual `Network.partition()` calls, numbered after the scheduled faults"""
+    nf = len(case["faults"])
+    out, k = {}, 0
+    for i, m in enumerate(case.get("manual", [])):
+        if m["op"] == "part":
+            out[i] = nf + k
+            k += 1
+    return out
+
+
 def _preload():
     """import the simulator in the harness process, before the fork pool exists: sixteen workers
     importing it at once under load took longer than the per-case timeout"""
@@ -116,7 +140,9 @@ def run_real(case):
                     yield futs[op[1]]
                     cur.append(f"w{k}")
                 elif kind == "res":
-                    futs[op[1]].resolve(None)
+                    # the worker ignores what it is resumed with; the engine must not: None, a falsy
+                    # and a truthy value in rotation
+                    futs[op[1]].resolve(RESOLVE_VALUES[(op[1] + k + j) % len(RESOLVE_VALUES)])
                     cur.append(f"r{k}")
                 elif kind == "acq":
                     try:
@@ -174,6 +200,8 @@ def run_real(case):
     def ename(e):
         return "net" if e == n else f"w{e}"
 
+    pre_cancelled = []
+
     class Tagged:
         """public `Fault` protocol wrapper that remembers which events belong to which fault"""
 
@@ -206,9 +234,15 @@ def run_real(case):
         t = Tagged(obj)
         tagged.append(t)
         handles.append(fs.add(t))
+        if "pre" in cancel_points(f):
+            handles[-1].cancel()             # before the Simulation (and the fault's events) exist
 
     H = case["H"]
-    sim = Simulation(entities=workers + [sink, net, res], fault_schedule=fs, end_time=Instant(H * TICK))
+    try:
+        sim = Simulation(entities=workers + [sink, net, res], fault_schedule=fs, end_time=Instant(H * TICK))
+    except (KeyError, ValueError):
+        # a fault names an entity / link that is not part of the simulation
+        return ["E unknown-target"]
     fmap = {}
     for fid, t in enumerate(tagged):
         for idx, ev in enumerate(t.events):
@@ -225,13 +259,36 @@ def run_real(case):
         evs.append(e)
     cmap = {}
     for fid, f in enumerate(case["faults"]):
-        c = f.get("cancel", -1)
-        if c == 0:
-            handles[fid].cancel()
-        elif c > 0:
-            ce = Event.once(Instant(c * TICK), "cancel", (lambda h: (lambda e: h.cancel()))(handles[fid]), daemon=True)
-            cmap[id(ce)] = fid
-            evs.append(ce)
+        for c in cancel_points(f):
+            if c == "pre":
+                continue
+            if c == 0:
+                handles[fid].cancel()
+            else:
+                ce = Event.once(Instant(c * TICK), "cancel", (lambda h: (lambda e: h.cancel()))(handles[fid]), daemon=True)
+                cmap[id(ce)] = fid
+                evs.append(ce)
+    # direct calls of the Network's partition API, interleaved with the scheduled windows
+    mmap, mh = {}, {}
+    mfid = manual_parts(case)
+    for i, m in enumerate(case.get("manual", [])):
+        if m["op"] == "part":
+            def fn(e, i=i, m=m):
+                mh[i] = net.partition([workers[x] for x in m["A"]], [workers[x] for x in m["B"]],
+                                      asymmetric=bool(m["asym"]))
+            tag = ("a", mfid[i])
+        elif m["op"] == "heal":
+            def fn(e, m=m):
+                if m["h"] in mh:
+                    mh[m["h"]].heal()
+            tag = ("d", mfid[m["h"]])
+        else:
+            def fn(e):
+                net.heal_partition()
+            tag = ("A", None)
+        me = Event.once(Instant(m["t"] * TICK), "manual", fn, daemon=True)
+        mmap[id(me)] = (tag, i)
+        evs.append(me)
     sim.schedule(evs)
 
     def scaled(x):
@@ -261,7 +318,16 @@ def run_real(case):
             fid, ad = fmap[key]
             out.append(f"F {t} {fid} {ad} | {settings(ev.time)}")
         elif key in cmap:
-            out.append(f"C {t} {cmap[key]}")
+            out.append(f"C {t} {cmap[key]} | {settings(ev.time)}")
+        elif key in mmap:
+            (ad, fid), i = mmap[key]
+            m = case["manual"][i]
+            if ad == "A":
+                out.append(f"A {t} | {settings(ev.time)}")
+            elif ad == "d" and m["h"] not in mh:
+                out.append(f"U {t} heal-before-partition")
+            else:
+                out.append(f"F {t} {fid} {ad} | {settings(ev.time)}")
         elif ev.event_type == "job" and qres:
             # report what reaches the worker logic (or is dropped at the resource); the enqueue
             # of an accepted event and the queue/driver plumbing are not activity of the handler
@@ -327,8 +393,8 @@ def case_lines(case):
         k = f["k"]
         s = f["s"] * TICK
         r = "none" if f["r"] is None else str(f["r"] * TICK)
-        c = f.get("cancel", -1)
-        cs = "x" if c >= 0 else "o"
+        cp = cancel_points(f)
+        cs = "p" if "pre" in cp else ("x" if 0 in cp else "o")
         if k in ("crash", "pause"):
             L.append(f"fault {cs} {s} {r} {k} {f['e']}")
         elif k == "part":
@@ -339,6 +405,9 @@ def case_lines(case):
             L.append(f"fault {cs} {s} {r} loss {f['a']} {f['b']} {f['x']}")
         elif k == "cap":
             L.append(f"fault {cs} {s} {r} cap {f['num']} {f['den']}")
+    for m in case.get("manual", []):
+        if m["op"] == "part":
+            L.append(f"fault m {m['t'] * TICK} none part {int(bool(m['asym']))} {' '.join(map(str, m['A']))} / {' '.join(map(str, m['B']))}")
     for job in case["jobs"]:
         ops = []
         for op in job["ops"]:
@@ -367,16 +436,23 @@ class C06(core.Property):
     audit_imports = ["HappyProofs.C06.Props"]
     lean_files = ["HappyModel/C06/*.lean", "HappyProofs/C06/*.lean", "HappyModel/Proto.lean", "Driver/C06.lean"]
     theorems = []
-    quick_cases = 2400
+    quick_cases = 3200
     thorough_cases = 60000
     case_timeout_s = 20
+    pool_workers = 1        # a case takes about a millisecond: the fork pool cost far more than it saved
     rule = ("fault plans of 1-5 faults (crash, pause, partition sym/asym, +latency, +loss, capacity factor) on 1-3 workers, "
             "the Network entity and one Resource; windows shaped relative to earlier ones (identical, nested, containing, "
             "staggered, disjoint, same start, same end, abutting, zero length, permanent crash), 15% cancelled handles (before "
             "the run or at a time before the start); 0-4 generator jobs of 1-6 ops (sleep, emit, wait/resolve future, "
-            "acquire/release) and 0-8 probes through the Network, placed on / 1 tick before / 1 tick after window endpoints; "
-            "families gate / net / cap / mixed in rotation; non-trivial = some job, probe or delivery was processed while a "
-            "window was open; distinct = distinct case content")
+            "acquire/release) and 0-9 probes through the Network, placed on / 1 tick before / 1 tick after window endpoints; "
+            "families gate / net / cap / mixed / cancel (handles cancelled before the Simulation is built, after it is built, "
+            "before / at / after the start, inside the window, at / after the end, twice) / manual (direct Network.partition(), "
+            "Partition.heal() - also repeated - and Network.heal_partition() calls interleaved with scheduled partition windows "
+            "on overlapping node sets) / stack (2-4 windows of one effect - down, partition, latency, loss, capacity - on one "
+            "target with endpoints from a three-point grid: equal starts, equal ends, zero length; or all five effects at once) "
+            "in rotation, plus ghost (a fault naming an entity or link that is not part of the simulation: construction must be "
+            "rejected); non-trivial = some job, probe, delivery, cancel or manual call was processed while a window was open; "
+            "distinct = distinct case content")
     trusted_base = [
         "hv/props/c06.py harness entities (Worker generator, Sink), observation through the public sim.control.on_event hook, "
         "is_partitioned / link.latency / link.packet_loss_rate / resource.capacity / resource.available, Network and link counters",
@@ -392,11 +468,18 @@ class C06(core.Property):
         "resource.available is judged as <= capacity - (grants whose holder has resumed): grants made to a process that has not "
         "resumed yet are not visible in the activity log",
         "probe fate is judged only when the effective loss rate is 0 or 1 (no RNG in the comparison)",
-        "cancellation is exercised before activation only (the property's wording)",
+        "a handle cancelled while its window is active keeps the window open for the rest of the run (the documented behaviour of "
+        "FaultHandle.cancel: the pending events are skipped); the property's wording covers cancellation before activation only",
+        "Network.heal_partition() ends every partition window open at that moment (scheduled or manual); the scheduled end of a "
+        "swept window and a repeated Partition.heal() must change nothing",
+        "a fault naming an unknown entity / link makes Simulation construction fail, also when its handle was cancelled before",
     ]
     hypotheses = [
-        "WF tr: each fault event is processed at most once, an activation before its deactivation (engine exactly-once, time order, start <= end)",
-        "Legit c tr: the schedule contains only events of scheduled, not-cancelled faults (cancelled events are never delivered: C01)",
+        "WF fs tr: each activation is processed at most once and before the deactivation of its window; a deactivation of a window "
+        "that is not active is that of a partition opened before (repeated heal / end of a swept window) (engine exactly-once, time order, start <= end)",
+        "Legit c tr: the schedule contains only events of faults of the plan, none after the handle of its fault was cancelled - "
+        "before the run (Case.initCanc) or by an earlier event of the schedule (cancelled events are never delivered: C01)",
+        "Clear fs f tr (active_of_inside / inside_of_active only): no Network.heal_partition() call in the schedule if f is a partition window",
     ]
     partial_theorems = {}
 
@@ -440,78 +523,80 @@ class C06(core.Property):
         r = s + rng.choice([0, 1, 8, 16, 40, 80])
         return "fresh", s, r
 
+    FAMS = ["gate", "net", "cap", "mixed", "cancel", "manual", "stack", "inflight"]
+
     def generate(self, rng: random.Random, i: int, tier: str) -> dict:
-        fam = ["gate", "net", "cap", "mixed"][i % 4]
-        n = rng.choice([1, 2, 3]) if fam in ("gate", "cap") else rng.choice([2, 3, 3])
+        fam = self.FAMS[i % len(self.FAMS)]
+        if i % 48 == 47:
+            fam = "ghost"
+        if fam == "cancel":
+            return self.gen_cancel(rng)
+        if fam == "manual":
+            return self.gen_manual(rng)
+        if fam == "stack":
+            return self.gen_stack(rng)
+        if fam == "ghost":
+            return self.gen_ghost(rng)
+        if fam == "inflight":
+            return self.gen_inflight(rng)
+        return self.gen_base(rng, fam)
+
+    # workload sizes per family: (jobs, probes)
+    LOAD = {"gate": ([1, 2, 3, 4], [0, 1, 2]), "net": ([0, 1], [3, 5, 8]), "cap": ([2, 3, 4], [0]),
+            "mixed": ([1, 2, 3], [1, 3, 5]), "cancel": ([1, 2, 3], [1, 3, 5]), "manual": ([0, 1], [4, 6, 9]),
+            "stack": ([1, 2, 3], [2, 4, 6]), "ghost": ([0, 1], [0, 1]), "inflight": ([0, 1], [0, 1, 2])}
+
+    def topology(self, rng, n):
         cap = rng.choice([4, 8, 16])
         lat = [[rng.choice([0, 1, 4, 8]) if a != b else 0 for b in range(n)] for a in range(n)]
         loss = [[(1024 if rng.random() < 0.08 else 0) if a != b else 0 for b in range(n)] for a in range(n)]
-        kinds = {"gate": ["crash", "pause", "crash", "pause", "part"],
-                 "net": ["part", "part", "lat", "lat", "loss", "loss", "crash"],
-                 "cap": ["cap", "cap", "cap", "pause"],
-                 "mixed": ["crash", "pause", "part", "lat", "loss", "cap"]}[fam]
-        nf = rng.choice([1, 2, 2, 3, 3, 4, 5])
-        faults, wins, shapes = [], [], []
-        focus = rng.randrange(n)                       # most node faults hit the same entity
-        fa, fb = (rng.sample(range(n), 2) if n >= 2 else (0, 0))
-        frac_links = set()
-        for _ in range(nf):
-            k = rng.choice(kinds)
-            if n < 2 and k in ("part", "lat", "loss"):
-                k = "crash"
-            shape, s, r = self.gen_window(rng, wins)
-            shapes.append(shape)
-            f = {"k": k, "s": s, "r": r}
-            if k in ("crash", "pause"):
-                e = focus if rng.random() < 0.7 else rng.randrange(n)
-                if rng.random() < 0.07:
-                    e = n                                # the Network entity itself
-                f["e"] = e
-                if k == "crash" and rng.random() < 0.12:
-                    f["r"] = None
-            elif k == "part":
-                ws = list(range(n))
-                rng.shuffle(ws)
-                cut = rng.randint(1, n - 1)
-                A, B = sorted(ws[:cut]), sorted(ws[cut:])
-                if rng.random() < 0.5 and n == 3:
-                    B = B[:1] if len(B) > 1 else B
-                if rng.random() < 0.5:
-                    A, B = B, A
-                f.update(A=A, B=B, asym=int(rng.random() < 0.35))
-            elif k in ("lat", "loss"):
-                if rng.random() < 0.7:
-                    a, b = fa, fb
-                else:
-                    a, b = rng.sample(range(n), 2)
-                if rng.random() < 0.2:
-                    a, b = b, a
-                if k == "lat":
-                    f.update(a=a, b=b, x=rng.choice([1, 8, 16, 3]))
-                else:
-                    x = rng.choice([1024, 1024, 1024, 0, 512, 256])
-                    if x not in (0, 1024):
-                        frac_links.add((a, b))
-                    f.update(a=a, b=b, x=x)
+        return cap, lat, loss
+
+    def gen_fault(self, rng, k, n, focus, fa, fb, frac_links):
+        """target and parameters of one fault of kind `k` (no window)"""
+        f = {"k": k}
+        if k in ("crash", "pause"):
+            e = focus if rng.random() < 0.7 else rng.randrange(n)
+            if rng.random() < 0.07:
+                e = n                                # the Network entity itself
+            f["e"] = e
+        elif k == "part":
+            ws = list(range(n))
+            rng.shuffle(ws)
+            cut = rng.randint(1, n - 1)
+            A, B = sorted(ws[:cut]), sorted(ws[cut:])
+            if rng.random() < 0.5 and n == 3:
+                B = B[:1] if len(B) > 1 else B
+            if rng.random() < 0.5:
+                A, B = B, A
+            f.update(A=A, B=B, asym=int(rng.random() < 0.35))
+        elif k in ("lat", "loss"):
+            if rng.random() < 0.7:
+                a, b = fa, fb
             else:
-                num, den = rng.choice([(1, 2), (1, 2), (1, 4), (3, 4)])
-                f.update(num=num, den=den)
-            if rng.random() < 0.15:
-                f["cancel"] = 0 if (s == 0 or rng.random() < 0.5) else rng.choice([1, max(1, s - 1), max(1, s // 2)])
-                if f["cancel"] >= s:
-                    f["cancel"] = 0
-            faults.append(f)
-            wins.append((f["s"], f["r"]))
-        # times of interest: window endpoints and their neighbours
-        pts = sorted({max(0, t + d) for (s, r) in wins for t in (s, r) if t is not None for d in (-9, -1, 0, 1, 7)})
-        pts = pts or [8]
+                a, b = rng.sample(range(n), 2)
+            if rng.random() < 0.2:
+                a, b = b, a
+            if k == "lat":
+                f.update(a=a, b=b, x=rng.choice([1, 8, 16, 3]))
+            else:
+                x = rng.choice([1024, 1024, 1024, 0, 512, 256])
+                if x not in (0, 1024):
+                    frac_links.add((a, b))
+                f.update(a=a, b=b, x=x)
+        else:
+            num, den = rng.choice([(1, 2), (1, 2), (1, 4), (3, 4)])
+            f.update(num=num, den=den)
+        return f
+
+    def workload(self, rng, fam, n, cap, pts, focus, fa, fb, frac_links):
+        pts = sorted(pts) or [8]
 
         def tpick():
             return rng.choice(pts) if rng.random() < 0.85 else rng.choice(self.GRID)
 
         jobs, nfut, waited = [], rng.choice([0, 1, 2]), set()
-        njobs = {"gate": rng.choice([1, 2, 3, 4]), "net": rng.choice([0, 1]), "cap": rng.choice([2, 3, 4]),
-                 "mixed": rng.choice([1, 2, 3])}[fam]
+        njobs = rng.choice(self.LOAD[fam][0])
         for _ in range(njobs):
             e = focus if rng.random() < 0.6 else rng.randrange(n)
             t = max(0, tpick() - rng.choice([0, 0, 8, 16, 24]))
@@ -541,7 +626,7 @@ class C06(core.Property):
             jobs.append({"e": e, "t": t, "ops": ops})
         probes = []
         if n >= 2:
-            npr = {"gate": rng.choice([0, 1, 2]), "net": rng.choice([3, 5, 8]), "cap": 0, "mixed": rng.choice([1, 3, 5])}[fam]
+            npr = rng.choice(self.LOAD[fam][1])
             for _ in range(npr):
                 if rng.random() < 0.6:
                     a, b = fa, fb
@@ -552,8 +637,289 @@ class C06(core.Property):
                 if (a, b) in frac_links:
                     continue
                 probes.append({"a": a, "b": b, "t": tpick()})
+        return jobs, nfut, probes
+
+    @staticmethod
+    def around(times):
+        return {max(0, t + d) for t in times if t is not None for d in (-9, -1, 0, 1, 7)}
+
+    def finish(self, fam, n, cap, nfut, lat, loss, faults, jobs, probes, rng, shapes, manual=None):
         case = {"family": fam, "n": n, "cap": cap, "nfut": nfut, "lat": lat, "loss": loss, "faults": faults,
                 "jobs": jobs, "probes": probes, "seed": rng.randrange(1 << 30), "shapes": shapes}
+        if manual:
+            case["manual"] = manual
+        case["H"] = self.horizon(case)
+        return case
+
+    def gen_base(self, rng, fam):
+        n = rng.choice([1, 2, 3]) if fam in ("gate", "cap") else rng.choice([2, 3, 3])
+        cap, lat, loss = self.topology(rng, n)
+        kinds = {"gate": ["crash", "pause", "crash", "pause", "part"],
+                 "net": ["part", "part", "lat", "lat", "loss", "loss", "crash"],
+                 "cap": ["cap", "cap", "cap", "pause"],
+                 "mixed": ["crash", "pause", "part", "lat", "loss", "cap"]}[fam]
+        nf = rng.choice([1, 2, 2, 3, 3, 4, 5])
+        faults, wins, shapes = [], [], []
+        focus = rng.randrange(n)                       # most node faults hit the same entity
+        fa, fb = (rng.sample(range(n), 2) if n >= 2 else (0, 0))
+        frac_links = set()
+        for _ in range(nf):
+            k = rng.choice(kinds)
+            if n < 2 and k in ("part", "lat", "loss"):
+                k = "crash"
+            shape, s, r = self.gen_window(rng, wins)
+            shapes.append(shape)
+            f = self.gen_fault(rng, k, n, focus, fa, fb, frac_links)
+            f.update(s=s, r=r)
+            if k == "crash" and rng.random() < 0.12:
+                f["r"] = None
+            if rng.random() < 0.15:
+                f["cancel"] = 0 if (s == 0 or rng.random() < 0.5) else rng.choice([1, max(1, s - 1), max(1, s // 2)])
+                if f["cancel"] >= s:
+                    f["cancel"] = 0
+            faults.append(f)
+            wins.append((f["s"], f["r"]))
+        # times of interest: window endpoints and their neighbours
+        pts = self.around(t for w in wins for t in w)
+        jobs, nfut, probes = self.workload(rng, fam, n, cap, pts, focus, fa, fb, frac_links)
+        return self.finish(fam, n, cap, nfut, lat, loss, faults, jobs, probes, rng, shapes)
+
+    def gen_cancel(self, rng):
+        """handles cancelled at every point of a fault's life: before the Simulation exists, after it
+        is built, before / at / after the start, inside the window, at / after the end, twice"""
+        n = rng.choice([1, 2, 3, 3])
+        cap, lat, loss = self.topology(rng, n)
+        focus = rng.randrange(n)
+        fa, fb = (rng.sample(range(n), 2) if n >= 2 else (0, 0))
+        frac_links, faults, wins, shapes = set(), [], [], []
+        kinds = ["crash", "pause", "part", "lat", "loss", "cap"]
+        same = rng.choice(kinds) if rng.random() < 0.6 else None     # windows stacked on one target
+        for i in range(rng.choice([1, 2, 2, 3, 3, 4])):
+            k = same or rng.choice(kinds)
+            if same in ("crash", "pause"):
+                k = rng.choice(["crash", "pause"])
+            if n < 2 and k in ("part", "lat", "loss"):
+                k = "pause"
+            shape, s, r = self.gen_window(rng, wins)
+            if rng.random() < 0.5:
+                s = max(s, 8)
+            shapes.append(shape)
+            f = self.gen_fault(rng, k, n, focus, fa, fb, frac_links)
+            if k in ("crash", "pause") and same:
+                f["e"] = focus
+            f.update(s=s, r=r)
+            if k == "crash" and rng.random() < 0.1:
+                f["r"] = None
+            if i == 0 or rng.random() < 0.55:
+                e = f["r"] if f["r"] is not None else s + 16
+                pts = ["pre", "pre", 0, 0, max(1, s - 8), max(1, s - 1), s, s + 1, (s + e) // 2, max(1, e - 1), e, e + 1, e + 8]
+                c = rng.choice(pts)
+                c = 0 if c != "pre" and c <= 0 else c
+                if rng.random() < 0.15:
+                    c2 = rng.choice(pts)
+                    c = [c, 0 if c2 != "pre" and c2 <= 0 else c2]
+                f["cancel"] = c
+            faults.append(f)
+            wins.append((f["s"], f["r"]))
+        cts = [c for f in faults for c in cancel_points(f) if c != "pre"]
+        pts = self.around([t for w in wins for t in w] + cts)
+        jobs, nfut, probes = self.workload(rng, "cancel", n, cap, pts, focus, fa, fb, frac_links)
+        return self.finish("cancel", n, cap, nfut, lat, loss, faults, jobs, probes, rng, shapes)
+
+    def gen_manual(self, rng):
+        """direct Network.partition() / Partition.heal() / Network.heal_partition() calls interleaved
+        with scheduled partition windows on overlapping node sets"""
+        n = rng.choice([2, 3, 3])
+        cap, lat, loss = self.topology(rng, n)
+        focus = rng.randrange(n)
+        fa, fb = rng.sample(range(n), 2)
+        frac_links, faults, wins, shapes = set(), [], [], []
+
+        def groups():
+            if rng.random() < 0.6:
+                A, B = [fa], [fb]
+                if n == 3 and rng.random() < 0.3:
+                    B = sorted(set(range(n)) - {fa})
+            else:
+                g = self.gen_fault(rng, "part", n, focus, fa, fb, frac_links)
+                return g["A"], g["B"], g["asym"]
+            if rng.random() < 0.5:
+                A, B = B, A
+            return A, B, int(rng.random() < 0.3)
+
+        for _ in range(rng.choice([0, 1, 1, 2, 2, 3])):
+            k = "part" if rng.random() < 0.8 else rng.choice(["lat", "loss", "crash"])
+            shape, s, r = self.gen_window(rng, wins)
+            shapes.append(shape)
+            if k == "part":
+                A, B, asym = groups()
+                f = {"k": "part", "A": A, "B": B, "asym": asym}
+            else:
+                f = self.gen_fault(rng, k, n, focus, fa, fb, frac_links)
+            f.update(s=s, r=r)
+            if rng.random() < 0.1:
+                f["cancel"] = rng.choice(["pre", 0, s + 1, max(1, s - 1)])
+            faults.append(f)
+            wins.append((s, r))
+        manual, mtimes = [], []
+        for _ in range(rng.choice([0, 1, 1, 2, 2, 3])):
+            shape, s, r = self.gen_window(rng, wins + mtimes)
+            A, B, asym = groups()
+            idx = len(manual)
+            manual.append({"op": "part", "t": s, "A": A, "B": B, "asym": asym})
+            ends = rng.choice([[], [r], [r], [r], [r, r], [r, r + rng.choice([1, 8, 24])]])
+            for e in ends:
+                manual.append({"op": "heal", "h": idx, "t": e})
+            mtimes.append((s, r))
+        alls = []
+        every = [t for w in wins + mtimes for t in w if t is not None] or [16]
+        for _ in range(rng.choice([0, 1, 1, 1, 2])):
+            t = max(1, rng.choice(every) + rng.choice([-8, -1, 0, 0, 1, 8]))
+            alls.append(t)
+            manual.append({"op": "healall", "t": t})
+        # heal calls after their partition call at equal times, heal-all in between at random
+        order = {"part": 0, "heal": 2, "healall": rng.choice([1, 3])}
+        idxmap, parts = {}, [m for m in manual if m["op"] == "part"]
+        manual_sorted = sorted(manual, key=lambda m: (m["t"], order[m["op"]]))
+        for j, m in enumerate(manual_sorted):
+            if m["op"] == "part":
+                idxmap[id(m)] = j
+        out = []
+        for m in manual_sorted:
+            m2 = dict(m)
+            if m["op"] == "heal":
+                m2["h"] = idxmap[id(manual[m["h"]])]
+            out.append(m2)
+        pts = self.around([t for w in wins + mtimes for t in w] + alls)
+        jobs, nfut, probes = self.workload(rng, "manual", n, cap, pts, focus, fa, fb, frac_links)
+        return self.finish("manual", n, cap, nfut, lat, loss, faults, jobs, probes, rng, shapes, out)
+
+    def gen_stack(self, rng):
+        """several windows of one kind on one target with endpoints from a three-point grid (equal
+        starts, equal ends, zero length, an end meeting a start), for one or two of the five
+        effects at a time: down, partition, latency, loss, capacity"""
+        n = rng.choice([2, 3])
+        cap, lat, loss = self.topology(rng, n)
+        focus = rng.randrange(n)
+        fa, fb = rng.sample(range(n), 2)
+        frac_links, faults, wins, shapes = set(), [], [], []
+        s0 = rng.choice([8, 16, 40])
+        d = rng.choice([1, 8, 8, 16])
+        grid = [s0, s0 + d, s0 + 2 * d]
+        effects = rng.sample(["down", "part", "lat", "loss", "cap"], rng.choice([1, 1, 2, 2, 5]))
+        for eff in effects:
+            for _ in range(rng.choice([2, 3, 3, 4]) if len(effects) < 5 else rng.choice([1, 2])):
+                s = rng.choice(grid)
+                r = rng.choice([t for t in grid if t >= s])
+                if eff == "down":
+                    f = {"k": rng.choice(["crash", "pause"]), "e": focus}
+                elif eff == "part":
+                    A, B = ([fa], [fb]) if rng.random() < 0.5 else ([fb], [fa])
+                    f = {"k": "part", "A": A, "B": B, "asym": int(rng.random() < 0.3)}
+                elif eff == "lat":
+                    f = {"k": "lat", "a": fa, "b": fb, "x": rng.choice([1, 8, 16, 3])}
+                elif eff == "loss":
+                    f = {"k": "loss", "a": fa, "b": fb, "x": rng.choice([1024, 1024, 0])}
+                else:
+                    num, den = rng.choice([(1, 2), (1, 2), (1, 4), (3, 4)])
+                    f = {"k": "cap", "num": num, "den": den}
+                f.update(s=s, r=r)
+                if rng.random() < 0.08:
+                    f["cancel"] = rng.choice(["pre", 0, s, r])
+                    if f["cancel"] != "pre" and f["cancel"] <= 0:
+                        f["cancel"] = 0
+                faults.append(f)
+                wins.append((s, r))
+                shapes.append("grid")
+        rng.shuffle(faults)
+        pts = self.around(grid)
+        fam = "cap" if effects == ["cap"] else "stack"
+        jobs, nfut, probes = self.workload(rng, fam, n, cap, pts, focus, fa, fb, frac_links)
+        return self.finish("stack", n, cap, nfut, lat, loss, faults, jobs, probes, rng, shapes)
+
+    def gen_inflight(self, rng):
+        """a generator handler of the target is in flight when the crash / pause hits - sleeping, parked
+        on a future, queued at the resource or just granted - and whatever it waits for arrives from
+        another entity before, at the edges of, inside and after the window"""
+        n = rng.choice([2, 3])
+        cap, lat, loss = self.topology(rng, n)
+        focus = rng.randrange(n)
+        other = rng.choice([e for e in range(n) if e != focus])
+        fa, fb = rng.sample(range(n), 2)
+        s = rng.choice([24, 32, 40, 64])
+        ln = rng.choice([1, 8, 16, 24])
+        r = s + ln
+        faults, shapes = [], []
+        for i in range(rng.choice([1, 1, 2, 3])):
+            k = rng.choice(["crash", "pause"])
+            if i == 0:
+                fs_, fr = s, r
+            else:
+                fs_ = rng.choice([s, s + 1, s + ln // 2, r, max(0, s - 8)])
+                fr = fs_ + rng.choice([0, 1, 8, ln])
+            f = {"k": k, "e": focus if rng.random() < 0.85 else other, "s": fs_, "r": fr}
+            if k == "crash" and i > 0 and rng.random() < 0.15:
+                f["r"] = None
+            if rng.random() < 0.1:
+                f["cancel"] = rng.choice(["pre", 0, fs_, fs_ + 1])
+                if f["cancel"] != "pre" and f["cancel"] <= 0:
+                    f["cancel"] = 0
+            faults.append(f)
+            shapes.append("inflight")
+        if rng.random() < 0.3:
+            faults.append({"k": "cap", "num": 1, "den": 2, "s": max(0, s - rng.choice([0, 4, 8])), "r": r + rng.choice([0, 8])})
+            shapes.append("inflight")
+        # when the thing the target's process waits for arrives, relative to the window [s, r]
+        arrive = rng.choice([s - 1, s, s + 1, s + ln // 2, r - 1, r, r + 1, r + 8])
+        lead = rng.choice([8, 16])
+        t_other, t_focus = max(0, s - lead - 8), max(0, s - lead)
+        tail = []
+        for _ in range(rng.choice([0, 1, 2, 3])):
+            tail.append(rng.choice([["emit", 0], ["emit", 1], ["sleep", 0], ["sleep", 8], ["rel"], ["res", 1], ["acq", 1]]))
+        mode = rng.choice(["grant", "grant", "future", "future", "sleep", "granted-at-once"])
+        nfut = 2
+        if mode == "grant":
+            # the other entity holds the whole resource and releases it at `arrive`
+            jobs = [{"e": other, "t": t_other, "ops": [["acq", cap], ["sleep", max(0, arrive - t_other)], ["rel"]]},
+                    {"e": focus, "t": t_focus, "ops": [["acq", rng.choice([1, cap // 2, cap])]] + tail}]
+        elif mode == "future":
+            jobs = [{"e": focus, "t": t_focus, "ops": [["wait", 0]] + tail},
+                    {"e": other, "t": t_other, "ops": [["sleep", max(0, arrive - t_other)], ["res", 0]]}]
+            if rng.random() < 0.3:
+                jobs.append({"e": other, "t": max(0, arrive - 1), "ops": [["sleep", rng.choice([0, 1, 2])], ["res", 0]]})
+        elif mode == "sleep":
+            jobs = [{"e": focus, "t": t_focus, "ops": [["sleep", max(0, arrive - t_focus)]] + tail}]
+        else:
+            # granted without waiting: the continuation for "now" is on the heap when the fault event fires
+            jobs = [{"e": focus, "t": rng.choice([s, s, r, arrive]), "ops": [["acq", 1]] + tail}]
+        if rng.random() < 0.4:
+            jobs.append({"e": rng.randrange(n), "t": rng.choice([s - 1, s, s + 1, r, r + 1]),
+                         "ops": [rng.choice([["emit", 0], ["sleep", 1], ["acq", 1], ["res", 1]])]})
+        probes = []
+        for _ in range(rng.choice([0, 0, 1, 2])):
+            a, b = rng.sample(range(n), 2)
+            probes.append({"a": a, "b": b, "t": rng.choice([s - 1, s, s + 1, r - 1, r, r + 1, arrive])})
+        return self.finish("inflight", n, cap, nfut, lat, loss, faults, jobs, probes, rng, shapes)
+
+    def gen_ghost(self, rng):
+        """a plan in which one fault names an entity / link that is not part of the simulation"""
+        case = self.gen_base(rng, rng.choice(["gate", "net", "mixed"]))
+        case["family"] = "ghost"
+        cands = [f for f in case["faults"] if f["k"] != "cap"]
+        if not cands:
+            f = {"k": "pause", "e": 0, "s": 8, "r": 16}
+            case["faults"].append(f)
+            cands = [f]
+        f = rng.choice(cands)
+        if f["k"] in ("crash", "pause"):
+            f["e"] = GHOST
+        elif f["k"] == "part":
+            side = rng.choice(["A", "B"])
+            f[side] = sorted(f[side] + [GHOST]) if rng.random() < 0.5 else [GHOST]
+        else:
+            f[rng.choice(["a", "b"])] = GHOST
+        if rng.random() < 0.3:
+            f["cancel"] = "pre"
         case["H"] = self.horizon(case)
         return case
 
@@ -561,7 +927,9 @@ class C06(core.Property):
     def horizon(case):
         ts = [0]
         for f in case["faults"]:
-            ts += [f["s"], f["r"] or 0, f.get("cancel", 0)]
+            ts += [f["s"], f["r"] or 0] + [c for c in cancel_points(f) if c != "pre"]
+        for m in case.get("manual", []):
+            ts.append(m["t"])
         for j in case["jobs"]:
             ts.append(j["t"])
         for p in case["probes"]:
@@ -572,11 +940,19 @@ class C06(core.Property):
 
     def nontrivial_key(self, case, impl_out):
         """non-trivial: a fault event was processed and something was observed while a window was open"""
-        act, hit = 0, False
+        act, hit = set(), False
+        nf = len(case["faults"])
         for line in impl_out:
+            w = line.split()
             if line.startswith("F "):
-                act += 1 if line.split()[3] == "a" else -1
-            elif act > 0 and line[:1] in "JNR":
+                (act.add if w[3] == "a" else act.discard)(int(w[2]))
+                hit = hit or (w[3] == "d" and int(w[2]) >= nf)      # a manual heal was observed
+            elif line.startswith("A "):
+                act = {f for f in act if f < nf and case["faults"][f]["k"] != "part"}
+                hit = True
+            elif line.startswith("E "):
+                hit = True
+            elif act and line[:1] in "JNRC":
                 hit = True
         if not hit:
             return None
@@ -592,6 +968,24 @@ class C06(core.Property):
             xs = case[key]
             for i in range(len(xs)):
                 yield with_(**{key: xs[:i] + xs[i + 1:]})
+        man = case.get("manual", [])
+        for i, m in enumerate(man):
+            if m["op"] == "part":
+                # drop the call together with the heals of its handle; renumber the other handles
+                keep = [dict(x) for j, x in enumerate(man) if j != i and not (x["op"] == "heal" and x["h"] == i)]
+                for x in keep:
+                    if x["op"] == "heal" and x["h"] > i:
+                        x["h"] -= 1 + sum(1 for j, y in enumerate(man) if i < j < x["h"] and y["op"] == "heal" and y["h"] == i)
+                yield with_(manual=keep)
+            else:
+                keep = [dict(x) for j, x in enumerate(man) if j != i]
+                for x in keep:
+                    if x["op"] == "heal" and x["h"] > i:
+                        x["h"] -= 1
+                yield with_(manual=keep)
+        if not man and "manual" in case:
+            c = {k: v for k, v in case.items() if k != "manual"}
+            yield c
         for j, job in enumerate(case["jobs"]):
             for k in range(len(job["ops"])):
                 nj = dict(job)
@@ -601,6 +995,9 @@ class C06(core.Property):
             if "cancel" in f:
                 nf = {k: v for k, v in f.items() if k != "cancel"}
                 yield with_(faults=case["faults"][:i] + [nf] + case["faults"][i + 1:])
+                if isinstance(f["cancel"], list) and len(f["cancel"]) > 1:
+                    for c in f["cancel"]:
+                        yield with_(faults=case["faults"][:i] + [dict(nf, cancel=c)] + case["faults"][i + 1:])
         if case["n"] > 1 and not case["probes"] and all(f["k"] not in ("part", "lat", "loss") for f in case["faults"]):
             used = {j["e"] for j in case["jobs"]} | {f["e"] for f in case["faults"] if "e" in f}
             if max(used | {0}) < case["n"] - 1:
@@ -620,20 +1017,23 @@ class C06(core.Property):
                     f["r"] = rng.choice(ends) + rng.choice([-1, 0, 1])
                 if f["r"] is not None and f["r"] < f["s"]:
                     f["r"] = f["s"]
-                if f.get("cancel", -1) >= f["s"]:
-                    f["cancel"] = 0
             elif k < 0.5 and c["faults"] and len(c["faults"]) < 6:
                 c["faults"].append(dict(rng.choice(c["faults"])))
             elif k < 0.7 and c["jobs"]:
                 rng.choice(c["jobs"])["t"] = max(0, rng.choice(ends) + rng.choice([-8, -1, 0, 1]))
             elif k < 0.85 and c["probes"]:
                 rng.choice(c["probes"])["t"] = max(0, rng.choice(ends) + rng.choice([-1, 0, 1]))
+            elif k < 0.92 and c.get("manual"):
+                m = rng.choice(c["manual"])
+                if m["op"] != "part":
+                    m["t"] = max(1, rng.choice(ends) + rng.choice([-1, 0, 1, 8]))
             elif c["faults"]:
                 f = rng.choice(c["faults"])
-                if "cancel" in f:
+                if "cancel" in f and rng.random() < 0.4:
                     del f["cancel"]
                 else:
-                    f["cancel"] = 0
+                    e = f["r"] if f["r"] is not None else f["s"] + 8
+                    f["cancel"] = rng.choice(["pre", 0, max(1, f["s"] - 1), max(1, f["s"]), f["s"] + 1, max(1, e), e + 1])
         c["H"] = self.horizon(c)
         return c
 
@@ -652,7 +1052,7 @@ class C06(core.Property):
         key = case_key(case)
         if os.getpid() == self._pid:
             self._memo[key] = out
-            if len(self._memo) > 256:
+            if len(self._memo) > 8192:
                 self._memo.pop(next(iter(self._memo)))
             return
         try:
@@ -691,7 +1091,10 @@ class C06(core.Property):
 
     # ------------------------------------------------------------------ model / judge
     def model_block(self, case, variant):
-        impl = self.impl_transcript(case)
+        return self.model_block_from_impl(case, variant, self.impl_transcript(case))
+
+    def model_block_from_impl(self, case, variant, impl):
+        """the case plus the schedule of processed events the real engine produced (GUIDE rule 8)"""
         body = case_lines(case)
         for line in impl:
             if line.startswith("IMPL-"):
@@ -720,6 +1123,11 @@ THEOREMS = [
     "HappyModel.C06.others_ungated",
     "HappyModel.C06.restart_resumes",
     "HappyModel.C06.cancelled_fault_is_noop",
+    "HappyModel.C06.cancel_before_activation_prevents",
+    "HappyModel.C06.cancel_is_silent",
+    "HappyModel.C06.heal_all_ends_every_partition",
+    "HappyModel.C06.stale_heal_is_noop",
+    "HappyModel.C06.winv_unique",
     "HappyModel.C06.inv_at",
     "HappyModel.C06.active_of_inside",
     "HappyModel.C06.inside_of_active",
